@@ -262,4 +262,9 @@ def extra_checks(ctx, cases, impl_lines, model_lines):
                         {"case_line": ln}))
             break
     ctx.setdefault("xcheck", {})["concurrent_first_rolls"] = 240 * 8
-    return res
+    if res:
+        return res
+    # archive names with $ENV references: every kind of variable and value C19 knows (unset, set, set to bytes that
+    # are not UTF-8, malformed references): the archives go where the one-pass expansion of the pattern says
+    from gen import xcheck
+    return xcheck.borrow(ctx, "C19", "archives are named by the expanded pattern", lambda c: c[0] in (2, 12), n=300, seed_salt=43)
